@@ -89,6 +89,11 @@ EXPLANATION = ("Tie to the code, two ways: (1) the whole methods ThetaHolder.__i
                "Model: Model/Thetas.v.  Modelled, not verified: h5py/HDF5 storage of arrays and scalars, numpy, dataclass "
                "construction in from_dicts, predict_viability (only used to recognise which sample produced which prediction "
                "column of evaluate_model).  ModelEvaluation.save_h5/load_h5 are used as-is to read the CLI's output.")
+# ---- source-translation links of the command-line wrappers (Model/Cli.v, Generated/SrcCli.v) ----
+THEOREMS.update({
+    'C10_model_is_source_cli_evaluate_model': 'the translation of the whole function evaluate_model.main regenerated on this run equals, for every record L of library functions and all parsed arguments, Cli.cli_evaluate_model: chain ids = for file i of --thetas in ARGUMENT order, its declared size n_thetas many copies of i (Cli.chain_ids_of); predictions = predict_viability_all(screen, concat of the holders in that order).T; ModelEvaluation(...) saved',
+})
+EXPLANATION += ("  CLI wrapper: evaluate_model.main is re-translated as a WHOLE function on every run (Generated/SrcCli.v) and proved equal to Model/Cli.v.  The link trusts the translator harness/py2gal.py (for these links extended by cfg typed_effects, kwcalls keys `module.function`, state_calls assigned to a tuple), the representation of Model/Cli.v (parsed arguments = a record of the plain argparse results, get_args() not translated = the primitive `get_args()` yielding that record; a main() denotes the list of (path, content) files it writes; `L` = ANY record of library functions over abstract types) and EXACTLY these primitives of harness/src_functions.py, each one field read / one library or constructor call standing for the function of that name (whose own link, where it exists, is the one of its property): CLI_EVALUATE_MODEL: the fields of `args` read as the record's projections (a store to one is refused); ignored: log_config.configure_logging(args), logger.info/warning; Screen.load_h5(p), ThetaHolder(n_thetas=1), h.load_h5(p), h.concat(l), t.n_thetas, `[i] * n` = n copies, typed effect chain_ids.extend(l), np.array(l, dtype=int) = the same values, m.T, s.observations, s.sample_names, keyword calls predict_viability_all(screen=, thetas=) and ModelEvaluation(observations=, predictions=, chain_ids=, sample_names=), typed effect r.save_h5(p); the enumerate loop is translated. ")
 
 _NAN1 = struct.unpack("<d", struct.pack("<Q", 0x7FF8000000000123))[0]
 _NAN2 = struct.unpack("<d", struct.pack("<Q", 0xFFF0000000000001))[0]
